@@ -1489,3 +1489,46 @@ func checkLabelErrorsNotDropped(p *core.Prog, r *core.Result, rule string) {
 	}
 	r.Floor(rule, n, 5, "fallible label constructors called in package dawn")
 }
+
+// checkPendingRecordBeforeBody (R3.12): when a body starts, the record on disk no longer says "up to date". The reason a
+// target runs for need not outlast the process (a generated file that was missing, a forced build), so if the process
+// dies inside the body the record of the last successful run would vouch for half-written outputs and no later build
+// would complete them. Evaluate therefore writes a record with Rerun = true before it invokes Target.evaluate(), and
+// goes on to the body only where that write succeeded.
+func checkPendingRecordBeforeBody(p *core.Prog, r *core.Result, rule string) {
+	m := buildEvalModel(p, r, rule)
+	if m == nil {
+		return
+	}
+	construct := "dawn.(*runTarget).Evaluate#pending-record-before-body"
+	if m.Evaluate == nil {
+		r.Unk(rule, construct, p.Pos(m.Fn.Pos()), "the body evaluation was not recognised")
+		return
+	}
+	errSites := map[*ssa.Call]bool{}
+	for _, s := range m.saveErrSites() {
+		errSites[s] = true
+	}
+	var found *ssa.Call
+	for _, w := range m.recordWrites() {
+		s, lit := w.Site, w.Lit
+		if !m.dom(s, m.Evaluate) {
+			continue
+		}
+		rr, okc := core.ConstBool(lit.Fields["Rerun"])
+		if !okc || !rr || (len(lit.Whole) != 0 && !lit.After["Rerun"]) {
+			continue
+		}
+		// the body runs only where the write succeeded
+		if errSites[s] {
+			if nn, known := p.FactsAt(m.Evaluate).ErrNonNil(s); known && !nn {
+				found = s
+			}
+		}
+	}
+	if found != nil {
+		r.OK(rule, construct, p.InstrPos(found), "a record with Rerun = true is written, and known to be written, before Target.evaluate() is invoked")
+	} else {
+		r.Bad(rule, construct, p.InstrPos(m.Evaluate), "the body starts while the record of the last successful run is still on disk: a target re-executed because its generated file was missing (or because the build was forced) and interrupted inside its body is found up to date by the next build - record intact, inputs unchanged, half-written output present - and is never completed")
+	}
+}
